@@ -148,7 +148,7 @@ func witnessOf(scn interface{}, h *hist.History, s *run.Session, extra map[strin
 			dl = append(dl, &c)
 		}
 		w["deliveries_tail"] = dl
-		var cl []sim.ConnLog
+		var cl []sim.ConnSnap
 		for _, c := range s.M.Conns() {
 			cl = append(cl, c.Snapshot())
 		}
